@@ -242,7 +242,15 @@ func runC03(c *Ctx) {
 				}
 			}
 		})
-		c.check(good, "ra-forced", instrPos(packCall), "RecursionAvailable = true dominates packing", "RA is not set on every reply")
+		nRA := 0
+		eachInstr(h, func(in ssa.Instruction) {
+			if st, ok := in.(*ssa.Store); ok {
+				if k, _ := fieldKey(st.Addr); k == "github.com/miekg/dns.MsgHdr.RecursionAvailable" {
+					nRA++
+				}
+			}
+		})
+		c.check(good && nRA == 1, "ra-forced", instrPos(packCall), "RecursionAvailable = true is the only RA write and dominates packing", "RA is not set on every reply, or is overwritten afterwards")
 	}
 
 	c.rule("R4", "OPT re-attach, then UDP truncation to a size in [512,65535] iff the query came over UDP, then pack", 4)
@@ -318,6 +326,18 @@ func runC03(c *Ctx) {
 						hi = iv.hi
 					}
 				}
+				// the size is the advertised one, raised only to the 512-byte minimum
+				if g != nil {
+					eachInstr(g, func(y ssa.Instruction) {
+						if ph, ok := y.(*ssa.Phi); ok {
+							for _, e := range ph.Edges {
+								if n, isC := constInt(e); isC && n != 0 && n != 512 {
+									okIv = false
+								}
+							}
+						}
+					})
+				}
 				c.check(argOK && okIv && lo >= 512 && hi <= 65535, "udp-size", instrPos(cl), fmt.Sprintf("size = getValidUDPSize(client OPT) in [%d,%d]", lo, hi),
 					fmt.Sprintf("the UDP size limit is in [%d,%d] (client OPT used: %v); it must be within [512, 65535]", lo, hi, argOK))
 			} else {
@@ -374,6 +394,56 @@ func runC03(c *Ctx) {
 	c.rule("R8", "the cache key is injective in the question (a hit must carry the asker's own question)", 37)
 	checkCacheKeyLayout(c)
 
+	// ---------------------------------------------------------------- R11
+	c.rule("R11", "the server tells the handler how the query arrived: FromUDP is the constant true exactly at the datagram server's Handle call", 3)
+	for _, f := range p.funcsIn(relServer) {
+		fn := f
+		eachInstr(f, func(in ssa.Instruction) {
+			ci, ok := in.(*ssa.Call)
+			if !ok || !ci.Call.IsInvoke() || ci.Call.Method.Name() != "Handle" || len(ci.Call.Args) < 3 {
+				return
+			}
+			c.see(fn)
+			top := fn
+			for top.Parent() != nil {
+				top = top.Parent()
+			}
+			isUDP := top.Name() == "ServeUDP"
+			key := "from-udp@" + funcName(top)
+			// the QueryMeta argument: a struct value; find the store into its FromUDP field
+			val := "unset"
+			meta := ci.Call.Args[2]
+			if ld, ok := meta.(*ssa.UnOp); ok && ld.Op == token.MUL {
+				if al, ok := ld.X.(*ssa.Alloc); ok {
+					for _, r := range referrers(al) {
+						if fa, ok := r.(*ssa.FieldAddr); ok {
+							if k, _ := fieldKey(fa); strings.HasSuffix(k, ".QueryMeta.FromUDP") {
+								for _, r2 := range referrers(fa) {
+									if st, ok := r2.(*ssa.Store); ok {
+										if b, isB := constBool(st.Val); isB {
+											val = map[bool]string{true: "true", false: "false"}[b]
+										} else {
+											val = "non-constant"
+										}
+									}
+								}
+							}
+						}
+					}
+				} else {
+					val = "unknown"
+				}
+			} else if _, isC := meta.(*ssa.Const); !isC {
+				val = "unknown"
+			}
+			if isUDP {
+				c.check(val == "true", key, instrPos(in), "the datagram server passes FromUDP: true", "the datagram server calls the handler with FromUDP "+val+": replies are never truncated to the size the client can receive")
+			} else {
+				c.check(val == "unset" || val == "false", key, instrPos(in), "stream/HTTP servers do not claim UDP", "a stream or HTTP server calls the handler with FromUDP "+val+": its replies are truncated as if they went over UDP")
+			}
+		})
+	}
+
 	// ---------------------------------------------------------------- R10
 	c.rule("R10", "the bytes sent are the packed reply: the packer returns a pool buffer of its own holding the message, and no pooled buffer (module-wide) is used, stored, returned or released again after its release", 26)
 	checkPackBufferExact(c)
@@ -389,6 +459,7 @@ func runC03R5(c *Ctx) {
 	tr.throughParams = true
 	tr.throughCalls = true
 	tr.maxDepth = 10
+	var lastQCalls []*ssa.Call
 	isQ := func(v ssa.Value) bool {
 		// value derived from (*Context).Q() (possibly passed down as a parameter)
 		t2 := p.newTracer()
@@ -396,10 +467,14 @@ func runC03R5(c *Ctx) {
 		t2.throughFields = false
 		t2.throughParams = true
 		roots := t2.origins(v)
+		lastQCalls = nil
 		if len(roots) == 0 {
 			return false
 		}
 		for _, r := range roots {
+			if cl, ok := r.(*ssa.Call); ok && callName(cl) == "(*"+relQctx+".Context).Q" {
+				lastQCalls = append(lastQCalls, cl)
+			}
 			if prm, ok := r.(*ssa.Parameter); ok {
 				// an exported entry point without callers inside mosdns: its caller supplies the query
 				fn := prm.Parent()
@@ -465,6 +540,29 @@ func runC03R5(c *Ctx) {
 						case "(*github.com/miekg/dns.Msg).SetReply", "(*github.com/miekg/dns.Msg).SetRcode":
 							if isQ(cl.Call.Args[1]) {
 								okAlloc = true
+								// the query of the very context the response is set on (not of a copy whose question may
+								// have been rewritten)
+								tl := p.newTracer()
+								tl.throughCalls, tl.throughFields, tl.throughParams = false, false, false
+								want := map[ssa.Value]bool{}
+								for _, o := range tl.origins(ci.Call.Args[0]) {
+									want[o] = true
+								}
+								for _, qc := range lastQCalls {
+									if qc.Parent() != fn && (fn.Parent() == nil || qc.Parent() != fn.Parent()) && (qc.Parent().Parent() != fn) {
+										continue // Q() taken in another function (passed down): not comparable here
+									}
+									same := false
+									for _, o := range tl.origins(qc.Call.Args[0]) {
+										if want[o] {
+											same = true
+										}
+									}
+									if !same {
+										okAlloc = false
+										bad = append(bad, "a reply built from the query of another context ("+exprStr(qc.Call.Args[0])+") than the one it is set on")
+									}
+								}
 							}
 						case "(*github.com/miekg/dns.Msg).Unpack":
 							// bytes from an upstream ExchangeContext result
@@ -592,7 +690,8 @@ func runC03R6(c *Ctx) {
 					}
 				})
 				if deferred {
-					c.ok(key, instrPos(in), "the deferred restore")
+					c.check(isSavedOriginal(p, st.Val, k), key, instrPos(in), "the deferred restore writes back the value loaded before the change",
+						"the deferred restore writes "+exprStr(st.Val)+", not the unmodified value that was loaded from the query before it was changed: the reply is built for another spelling of the question than the client asked")
 					return
 				}
 			}
@@ -697,4 +796,25 @@ func checkSinglePackSite(c *Ctx, h *ssa.Function) {
 		c.check(nCalls == 1 && escapes == "", "single-pack-site", h.Pos(), "the reply is packed at exactly one place in Handle",
 			fmt.Sprintf("the pack function is called %d times / handed to %q: some replies bypass RA forcing, OPT re-attachment or UDP truncation", nCalls, escapes))
 	}
+}
+
+// isSavedOriginal: v is (through local variables and closure bindings, not through calls) a plain load of the
+// query field with key k.
+func isSavedOriginal(p *Prog, v ssa.Value, k string) bool {
+	tl := p.newTracer()
+	tl.throughCalls, tl.throughFields, tl.throughParams = false, false, false
+	os := tl.origins(v)
+	if len(os) == 0 {
+		return false
+	}
+	for _, o := range os {
+		ld, ok := o.(*ssa.UnOp)
+		if !ok || ld.Op != token.MUL {
+			return false
+		}
+		if k2, _ := fieldKey(ld.X); k2 != k {
+			return false
+		}
+	}
+	return true
 }
